@@ -225,7 +225,7 @@ for ty, tier in FAM:
         NANB, tier)
     add("c13_convert", f"c13_narrow_{ty}", "C13",
         f"{ty}: f64->f32 to_superset is the `as` cast per part, absent stays absent",
-        NANB, tier, flags=NOOVF)
+        NANB, "quick" if ty == "dual2svec_2" else tier, flags=NOOVF)  # the only quick harness with a multi-column part (1xD, DxD, D = 2)
     add("c13_convert", f"c13_identity_{ty}", "C13",
         f"{ty}: f64->f64 and f32->f32 conversions are the identity (to_superset, from_superset_unchecked, to_subset_unchecked)",
         NANB, "thorough" if tier == "thorough" or ty == "dualsvec_1" else "quick")
